@@ -1,6 +1,7 @@
 package type5
 
 import (
+	"bytes"
 	"crypto/sha256"
 	"fmt"
 
@@ -76,6 +77,10 @@ func (s BatchedPrivateTokenRequestState) FinalizeTokens(tokenResponseEnc []byte)
 	err := proof.UnmarshalBinary(group.Ristretto255, proofEnc)
 	if err != nil {
 		return nil, err
+	}
+	// The scalar decoder ignores the three most significant bits; only the canonical encoding is valid.
+	if canonicalProofEnc, err := proof.MarshalBinary(); err != nil || !bytes.Equal(canonicalProofEnc, proofEnc) {
+		return nil, fmt.Errorf("invalid batch token response proof encoding")
 	}
 
 	evaluation := &oprf.Evaluation{
